@@ -249,6 +249,15 @@ def solve_core(s, t, debug=False):
             print(*args)
 
     var_names = [v.name for v in term.get_vars(As + [C])]
+
+    # Z3 knows a constant by its name and sort, and nat and int share the
+    # integer sort: a name used at two types would stand for two variables.
+    var_types = dict()
+    for v in term.get_vars(As + [C]):
+        if var_types.setdefault(v.name, v.T) != v.T:
+            print_debug('variable %s occurs at two types' % v.name)
+            return s
+
     assms = dict()
     to_real = dict()
     for A in As:
